@@ -33,36 +33,51 @@ Qed.
 (* ------------------------------------------------- soundness: the write step *)
 (* Abstraction relation between the abstract heap semantics and the checker's
    abstract values.  n0 = allocation pointer at entry: locations below n0 existed
-   before the call.  [gamma n0 h a l]: location l is described by abstract object a. *)
-Definition gamma (n0 : loc) (h : heap) (a : aobj) (l : loc) : Prop :=
+   before the call.  R q l ("l is in the region of parameter q"): l was reachable
+   from the object bound to q when the call started.
+   [gamma n0 R h a l]: location l is described by abstract object a. *)
+Definition region := var -> loc -> Prop.
+Definition gamma (n0 : loc) (R : region) (h : heap) (a : aobj) (l : loc) : Prop :=
   match a with
-  | xI _ => (l < n0)%nat
+  | xI p => (l < n0)%nat /\ R (Pos.pred_N p) l
   | xO p => (n0 <= l)%nat /\ site_of h l = Pos.pred_N p
   | xH => False
   end.
 (* every variable is bound to an existing location described by its abstract value *)
-Definition inv_env (n0 : loc) (h : heap) (e : env) (E : aenv) : Prop :=
-  forall x l, e x = Some l -> (l < next h)%nat /\ exists a, PositiveSet.In a (alook E x) /\ gamma n0 h a l.
-(* a new object that shares a pre-existing buffer was allocated at a site whose
-   buffer-taint set is not empty *)
-Definition inv_bt (n0 : loc) (H : aheap) (h : heap) : Prop :=
-  forall l, (n0 <= l)%nat -> (l < next h)%nat -> (base h l < n0)%nat -> bt_look (bt H) (site_of h l) <> [].
+Definition inv_env (n0 : loc) (R : region) (h : heap) (e : env) (E : aenv) : Prop :=
+  forall x l, e x = Some l ->
+    (l < next h)%nat /\ exists a, PositiveSet.In a (alook E x) /\ gamma n0 R h a l.
+(* b0 = the buffer owner of every object at entry.  Objects that existed before the
+   call keep their buffer; a new object that shares a pre-existing buffer was
+   allocated at a site whose taint names a parameter in whose region the buffer lies *)
+Definition inv_base (n0 : loc) (b0 : loc -> loc) (h : heap) : Prop :=
+  forall l, (l < n0)%nat -> base h l = b0 l.
+Definition inv_bt (n0 : loc) (R : region) (b0 : loc -> loc) (H : aheap) (h : heap) : Prop :=
+  forall l, (n0 <= l)%nat -> (l < next h)%nat -> (base h l < n0)%nat ->
+    exists q l', In q (bt_look (bt H) (site_of h l)) /\ R q l' /\ base h l = b0 l'.
 
-Lemma nunion_nil : forall l m, nunion l m = [] -> l = [] /\ m = [].
+Lemma nmem_In : forall a l, nmem a l = true <-> In a l.
 Proof.
-  induction l as [|a l IH]; intros m Hn; cbn [nunion] in Hn.
-  - split; [reflexivity|exact Hn].
-  - destruct (nmem a m) eqn:Hm.
-    + destruct (IH _ Hn) as [_ Hm0]. subst m. discriminate Hm.
-    + discriminate Hn.
+  intros a l. unfold nmem. rewrite existsb_exists. split.
+  - intros [b [Hb He]]. apply N.eqb_eq in He. subst b. exact Hb.
+  - intros Hin. exists a. split; [exact Hin|apply N.eqb_refl].
 Qed.
 
-Lemma taint_nil_in : forall H (l : list aobj) a,
-  fold_right (fun a acc => nunion (taint1 H a) acc) [] l = [] -> In a l -> taint1 H a = [].
+Lemma nunion_In : forall q l m, In q (nunion l m) <-> In q l \/ In q m.
 Proof.
-  induction l as [|b l IH]; intros a Hn Hin; [destruct Hin|].
-  cbn [fold_right] in Hn. apply nunion_nil in Hn. destruct Hn as [Hb Hl].
-  destruct Hin as [->|Hin]; [exact Hb|exact (IH a Hl Hin)].
+  intros q l m. induction l as [|a l IH]; cbn [nunion].
+  - split; [intros Hq; right; exact Hq|intros [[]|Hq]; exact Hq].
+  - destruct (nmem a m) eqn:Hm.
+    + rewrite IH. split.
+      * intros [Hq|Hq]; [left; right; exact Hq|right; exact Hq].
+      * intros [[<-|Hq]|Hq]; [right; apply nmem_In; exact Hm|left; exact Hq|right; exact Hq].
+    + cbn [In]. rewrite IH. tauto.
+Qed.
+
+Lemma nsubset_In : forall l m q, nsubset l m = true -> In q l -> In q m.
+Proof.
+  intros l m q Hs Hq. unfold nsubset in Hs. rewrite forallb_forall in Hs.
+  apply nmem_In. exact (Hs q Hq).
 Qed.
 
 Lemma in_aelems : forall a s, PositiveSet.In a s -> In a (aelems s).
@@ -71,41 +86,47 @@ Proof.
   apply SetoidList.InA_alt in Hin. destruct Hin as [b [Hb Hin]]. unfold PositiveSet.E.eq in Hb. subst b. exact Hin.
 Qed.
 
-(* the key step: a write that the checker does not report (empty taint of the
-   target's abstract value) touches a buffer that did not exist before the call *)
-Lemma write_safe : forall n0 H h e E x l,
-  inv_env n0 h e E -> inv_bt n0 H h ->
-  e x = Some l -> taint H (alook E x) = [] -> (n0 <= base h l)%nat.
+Lemma taint_fold_in : forall H (l : list aobj) a q,
+  In a l -> In q (taint1 H a) -> In q (fold_right (fun a acc => nunion (taint1 H a) acc) [] l).
 Proof.
-  intros n0 H h e E x l Henv Hbt Hx Ht.
+  induction l as [|b l IH]; intros a q Ha Hq; [destruct Ha|].
+  cbn [fold_right]. apply nunion_In. destruct Ha as [->|Ha]; [left; exact Hq|right; exact (IH a q Ha Hq)].
+Qed.
+
+Lemma taint_in : forall H s a q, PositiveSet.In a s -> In q (taint1 H a) -> In q (taint H s).
+Proof.
+  intros H s a q Ha Hq. unfold taint. apply (taint_fold_in H _ a q); [apply in_aelems; exact Ha|exact Hq].
+Qed.
+
+(* the key step: the buffer written by  x[..] = ..  either was created during the
+   call or lies in the region of a parameter that is in the taint of x's abstract
+   value (which the checker reports) *)
+Lemma write_attr : forall n0 R b0 H h e E x l,
+  inv_env n0 R h e E -> inv_bt n0 R b0 H h -> inv_base n0 b0 h ->
+  e x = Some l -> (base h l < n0)%nat ->
+  exists q l', In q (taint H (alook E x)) /\ R q l' /\ base h l = b0 l'.
+Proof.
+  intros n0 R b0 H h e E x l Henv Hbt Hb0 Hx Hlt0.
   destruct (Henv x l Hx) as [Hlt [a [Hin Hg]]].
-  assert (Ha : taint1 H a = []) by (apply (taint_nil_in H (aelems (alook E x))); [exact Ht|apply in_aelems; exact Hin]).
-  destruct a as [p|p|]; cbn [gamma taint1] in *.
-  - discriminate Ha.
-  - destruct Hg as [Hge Hs].
-    destruct (Nat.lt_ge_cases (base h l) n0) as [Hlt0|Hge0]; [|exact Hge0].
-    exfalso. apply (Hbt l Hge Hlt Hlt0). rewrite Hs. exact Ha.
+  destruct a as [p|p|]; cbn [gamma] in Hg.
+  - destruct Hg as [Hold Hr]. exists (Pos.pred_N p), l. split; [|split; [exact Hr|exact (Hb0 l Hold)]].
+    apply (taint_in H _ (xI p)); [exact Hin|]. left. reflexivity.
+  - destruct Hg as [Hge Hs]. destruct (Hbt l Hge Hlt Hlt0) as [q [l' [Hq [Hr Hb]]]].
+    exists q, l'. split; [|split; assumption].
+    apply (taint_in H _ (xO p)); [exact Hin|]. cbn [taint1]. rewrite <- Hs. exact Hq.
   - destruct Hg.
 Qed.
 
-(* one executed SWrite: the location it logs is new whenever the checker's verdict
-   for that statement is the empty violation list *)
-Lemma exec_write_logs_new : forall p H d n0 ln x f ys E E' st o st',
-  chk p H (S d) (SWrite ln x f ys) E = Some (E', []) ->
-  inv_env n0 (st_heap st) (st_env st) E -> inv_bt n0 H (st_heap st) ->
-  (forall m, In m (st_log st) -> (n0 <= m)%nat) ->
-  exec p (SWrite ln x f ys) st o st' ->
-  forall m, In m (st_log st') -> (n0 <= m)%nat.
+(* a write that the checker does not report (empty taint of the target's abstract
+   value) touches a buffer that did not exist before the call *)
+Lemma write_safe : forall n0 R b0 H h e E x l,
+  inv_env n0 R h e E -> inv_bt n0 R b0 H h -> inv_base n0 b0 h ->
+  e x = Some l -> taint H (alook E x) = [] -> (n0 <= base h l)%nat.
 Proof.
-  intros p H d n0 ln x f ys E E' st o st' Hc Henv Hbt Hlog Hex m Hm.
-  inversion Hex; subst.
-  - exact (Hlog m Hm).
-  - cbn [st_log] in Hm. destruct Hm as [<-|Hm]; [|exact (Hlog m Hm)].
-    cbn [chk] in Hc.
-    destruct (store_ok H f (alook E x) (alooks E ys)); [|discriminate Hc].
-    injection Hc as _ Hv.
-    apply (write_safe n0 H (st_heap st) (st_env st) E x l Henv Hbt); [assumption|].
-    destruct (taint H (alook E x)); [reflexivity|discriminate Hv].
+  intros n0 R b0 H h e E x l Henv Hbt Hb0 Hx Ht.
+  destruct (Nat.lt_ge_cases (base h l) n0) as [Hlt0|Hge0]; [|exact Hge0].
+  destruct (write_attr n0 R b0 H h e E x l Henv Hbt Hb0 Hx Hlt0) as [q [l' [Hq _]]].
+  rewrite Ht in Hq. destruct Hq.
 Qed.
 
 (* the environment order is sound: a larger abstract environment describes every
@@ -139,10 +160,10 @@ Proof.
       * exact (aenv_leq_gen_sound _ _ x a Hl Hin).
 Qed.
 
-Lemma inv_env_mono : forall n0 h e E F,
-  aenv_leq E F = true -> inv_env n0 h e E -> inv_env n0 h e F.
+Lemma inv_env_mono : forall n0 R h e E F,
+  aenv_leq E F = true -> inv_env n0 R h e E -> inv_env n0 R h e F.
 Proof.
-  intros n0 h e E F Hl Hi x l Hx. destruct (Hi x l Hx) as [Hlt [a [Hin Hg]]].
+  intros n0 R h e E F Hl Hi x l Hx. destruct (Hi x l Hx) as [Hlt [a [Hin Hg]]].
   split; [exact Hlt|]. exists a. split; [exact (aenv_leq_sound E F x a Hl Hin)|exact Hg].
 Qed.
 
@@ -164,11 +185,11 @@ Proof.
     + destruct (N.eqb_spec y z); [reflexivity|]. apply IH. exact Hne.
 Qed.
 
-Lemma assign_var_preserves : forall n0 h e E x y l,
-  inv_env n0 h e E -> e y = Some l ->
-  inv_env n0 h (upd e x (Some l)) (aset E x (alook E y)).
+Lemma assign_var_preserves : forall n0 R h e E x y l,
+  inv_env n0 R h e E -> e y = Some l ->
+  inv_env n0 R h (upd e x (Some l)) (aset E x (alook E y)).
 Proof.
-  intros n0 h e E x y l Hi Hy z m Hz. unfold upd in Hz.
+  intros n0 R h e E x y l Hi Hy z m Hz. unfold upd in Hz.
   destruct (N.eqb_spec z x) as [->|Hne].
   - injection Hz as <-. rewrite alook_aset_same. exact (Hi y l Hy).
   - rewrite alook_aset_other by exact Hne. exact (Hi z m Hz).
